@@ -1,3 +1,4 @@
+import GrmVerif.Lemmas.Total
 import GrmVerif.Lemmas.Analyses2
 import GrmVerif.Lemmas.Recog
 /-!
@@ -90,6 +91,15 @@ when the costs of derivable strings are unbounded" — is decided per grammar by
 upper half by `max_cost_upper_bound` on the implementation's table, lower half by a witness string
 (from `maxIter`) accepted by `recog_sound`. The "unbounded" verdict itself is NOT proved in Lean
 (it needs a pumping argument); see DESIGN.md C17, `max_cost_unbounded` is listed as not proved. -/
+
+/-- **the reference analyses terminate**: nullable, FIRST and FOLLOW are each computed with
+`|universe| + 1` rounds of fuel, and every non-final round adds a fact (`Fix.lfp_total`), so the
+references used as oracle here (and as lookahead oracle by C01/C02/C04/C16) never answer "fuel
+exhausted", for any grammar. -/
+theorem reference_analyses_total (G : Grammar) : ∃ An, analyses G = some An := Total.analyses_total G
+
+/-- likewise the reference rule reachability -/
+theorem reference_reach_total (G : Grammar) (A : Nat) : ∃ R, reach G A = some R := Total.reach_total G A
 
 /-! ### non-vacuity (tests) -/
 
